@@ -515,13 +515,10 @@ func c15SameTx(a, b *Transaction, label string) {
 // VerifC15TxRoundTrip: UnmarshalTx(NewTransaction(base, actions, auth).Bytes()) gives the same transaction, and the
 // bytes signed through TransactionData.Sign are the unsigned bytes of the parsed transaction.
 func VerifC15TxRoundTrip() {
-	// the base is one of: empty, full-size, or (thorough) any base; every base round-trips by base-roundtrip
+	// the base is empty or full-size (every base round-trips by base-roundtrip)
 	var b Base
-	switch verifChoose("base", verifParam("txRoundTripBases", 2, 3)) {
-	case 1:
+	if verifChoose("base", 2) == 1 {
 		b = c15Base()
-	case 2:
-		b = c15AnyBase()
 	}
 	n := verifChoose("actions", verifParam("txMaxActions", 2, 3)+1)
 	actions := make([]Action, n)
